@@ -259,9 +259,10 @@ p_ini_file_parse (PIniFile	*file,
 
 				section = pp_ini_file_section_new (key);
 			}
-		} else if (sscanf (dst_line, "%[^=] = \"%[^\"]\"", key, value) == 2 ||
-			   sscanf (dst_line, "%[^=] = '%[^\']'", key, value) == 2 ||
-			   sscanf (dst_line, "%[^=] = %[^;#]", key, value) == 2) {
+		} else if (dst_line[0] != ';' && dst_line[0] != '#' &&
+			   (sscanf (dst_line, "%[^=] = \"%[^\"]\"", key, value) == 2 ||
+			    sscanf (dst_line, "%[^=] = '%[^\']'", key, value) == 2 ||
+			    sscanf (dst_line, "%[^=] = %[^;#]", key, value) == 2)) {
 			/* New parameter found */
 			if ((tmp_str = p_strchomp (key)) != NULL) {
 				/* This should not happen */
